@@ -1,6 +1,7 @@
 package verifsim
 
 import (
+	"github.com/mimiro-io/datahub/internal/server"
 	"encoding/json"
 	"fmt"
 	"net/http"
@@ -217,7 +218,13 @@ func RunC15Scenario(sc *Scenario) (vd *Verdict) {
 		vd.Nontrivial = r.Stats["payloads_posted"] >= 1 && r.Stats["messages"]+r.Stats["malformed_posts"] >= 1
 	}()
 	for _, d := range []string{"src"} {
-		_, _ = r.A.Dsm.CreateDataset(d, nil)
+		var cfg *server.CreateDatasetConfig
+		if sc.Knob("publicNS", 0) == 1 {
+			// the dataset publishes its own context: the namespaces it lists, one of them not in use yet
+			cfg = &server.CreateDatasetConfig{PublicNamespaces: []string{ExE, ExS, ExT}}
+			r.Stats["datasets_with_public_namespaces"]++
+		}
+		_, _ = r.A.Dsm.CreateDataset(d, cfg)
 		r.MA.Create(d)
 	}
 	for _, d := range []string{"copy", "pushed", "mal", "tx1", "tx2", "tx3"} {
